@@ -28,6 +28,8 @@ ASSUMPTIONS = [
 ]
 SHARDS = {"quick": 8, "thorough": 16}
 MIN_REACH = {
+    "tables_started_from_rows_given_at_construction": {"quick": 3, "thorough": 60},
+    "runs_naming_a_constant_at_the_call": {"quick": 20, "thorough": 400},
     "runs_judged": {"quick": 250, "thorough": 4500},
     "rows_decoded": {"quick": 1200, "thorough": 20000},
     "crop_runs": {"quick": 60, "thorough": 1000},
@@ -62,7 +64,7 @@ def cases(ctx):
                 if rng.random() < 0.35:
                     r["run_constants"] = {"kc": rng.choice([5, 7]) if consts["kc"] == 3 else rng.choice(["yy", "xx"])}
         yield {"runs": runs, "no_args": no_args, "engine": rng.choice(["pickle", "pickle", "csv"]), "kind": rng.choice(["float", "multi:s,s", "int", "str"]),
-               "constants": consts, "mem_only": rng.random() < 0.1,
+               "constants": consts, "mem_only": rng.random() < 0.1, "seeded_table": rng.random() < 0.15,
                "default_kind": rng.choice(["lists", "mixed"]), "x_dates": rng.random() < 0.3,
                # table names whose extension asks pandas for compression
                "compress": rng.choice(["", "", "", ".gz", ".xz", ".bz2"])}
@@ -110,12 +112,12 @@ def run_case(ctx, case):
     fn = probe.Probe(kind, logfile=logfile, name="sprobe")
     sig = {"api": "sampler", "engine": engine, "kind": kind.split(":")[0]}
 
-    def new_sampler(rng):
+    def new_sampler(rng, **skw):
         runner = xyzpy.Runner(fn, var_names, constants=dict(base_constants) or None)
         dc = {}
         for a in args:
             dc[a] = list(POOLS[a]) if case["default_kind"] == "lists" or a != "x" else LoggingGen(rng, POOLS[a], draws.setdefault(a, []))
-        return xyzpy.Sampler(runner, data_name=data_name, default_combos=dc or None, engine=engine)
+        return xyzpy.Sampler(runner, data_name=data_name, default_combos=dc or None, engine=engine, **skw)
 
     draws = {}
     s = None
@@ -125,13 +127,33 @@ def run_case(ctx, case):
     cols = args + sorted(constants) + outs
     log_off = 0
     nviol = 0
+    if case.get("seeded_table") and not case["mem_only"] and args:
+        # the table starts from rows carried over from a Sampler that lived in memory only: the first Sampler on the
+        # (not yet existing) file is constructed with them (full_df=), and every later run appends to them
+        try:
+            with quiet():
+                np.random.seed(case["runs"][0]["rseed"] % 1000)
+                s0 = xyzpy.Sampler(xyzpy.Runner(fn, var_names, constants=dict(base_constants) or None), data_name=None,
+                                   default_combos={a: list(POOLS[a]) for a in args})
+                s0.sample_combos(3, verbosity=0)
+                init_df = s0.full_df.copy()
+                s = new_sampler(ctx.rng("run", case["runs"][0]["rseed"]), full_df=init_df)
+            alive.append(s)
+            prev_rows = [_cv_row(r, cols) for r in init_df.to_dict("records")]
+            log_off = probe.read_log(logfile, log_off)[1]
+            ctx.count("tables_started_from_rows_given_at_construction")
+        except Exception as e:
+            ctx.violation(dict(case, at=["Sampler(full_df=<3 rows>)"]), "constructing a Sampler with initial rows raised %r" % (e,),
+                          dict(sig, oracle="no-exception", **exc_sig(e)))
+            nviol += 1
+    first = True
     for run in case["runs"]:
         if nviol:
             break
         rng = ctx.rng("run", run["rseed"])
         for v in draws.values():
             del v[:]
-        if s is None or (run["new_sampler"] and not case["mem_only"]):
+        if s is None or (run["new_sampler"] and not case["mem_only"] and not (first and case.get("seeded_table"))):
             if s is not None:
                 ctx.count("new_samplers")
             try:
@@ -155,6 +177,7 @@ def run_case(ctx, case):
             for a, v in s.default_combos.items():
                 if isinstance(v, LoggingGen):
                     v.rng = rng
+        first = False
         n = run["n"]
         override = None
         allowed = {a: list(POOLS[a]) for a in args}
@@ -174,7 +197,8 @@ def run_case(ctx, case):
                     gens_used[a] = True
         err = None
         desc = "%s(n=%d%s)" % (run["how"], n, ", override=%s" % run["override"] if run["override"] else "")
-        if run.get("save_fails_first") and run["how"] == "sample" and data_name is not None and not nviol:
+        if run.get("save_fails_first") and run["how"] == "sample" and data_name is not None and not nviol and \
+                not (case.get("seeded_table") and not os.path.exists(data_name)):     # (rows given at construction are in memory only until the first save)
             # the write of the table fails once (disk full): the run raises, memory and disk stay as they were (in step
             # with each other), and the run that follows appends exactly its own n rows
             from .c12 import SaveFailpoint
